@@ -59,7 +59,9 @@ pub fn cobs_decode(src: &[u8]) -> Option<Vec<u8>> {
 /// Upper bound on the frame count a USART link-frame body can announce if the
 /// receiver takes it as a start frame (0 if it cannot be a start frame).
 pub fn announce_usart_body(body: &[u8]) -> u32 {
-    match cobs_decode(body) {
+    // (leading zero bytes of a body are skipped, as common COBS decoders do)
+    let lead = body.iter().take_while(|b| **b == 0).count();
+    match cobs_decode(&body[lead..]) {
         Some(raw) if raw.len() >= 5 => {
             let start = (raw[0] >> 6) & 1 != 0;
             if start {
